@@ -31,6 +31,22 @@ class Interp:
             return
         self.sink.oblige(st, goal, kind, label, node, self.frame)
 
+    facet = None     # the facet of the current verification pass (None = base pass)
+
+    def clause_on(self, clause):
+        """Is this clause part of what the current pass ASSUMES / talks about?  (untagged, or tagged with the pass)"""
+        f = getattr(clause, "facet", None)
+        return f is None or f == self.facet
+
+    facet_all = False
+
+    def clause_due(self, clause):
+        """Does the current pass have to PROVE this clause?  base pass: the untagged ones; facet pass: its own only
+        (a function verified in a single facet pass proves everything there)"""
+        if self.facet_all:
+            return self.clause_on(clause)
+        return getattr(clause, "facet", None) == self.facet
+
     def safety(self, st, goal, label, node=None):
         """Implicit-exception freedom (index in range, division by non-zero, not None, key present)."""
         if self.in_contract:
